@@ -117,9 +117,10 @@ def build_directory(case):
     triples = {}
     for k, sp in enumerate(case["species"]):
         nm = "SP%d" % k
-        cg = os.path.join(inputs, "%s_CG.itp" % nm)
-        ag = os.path.join(inputs, "%s_AA.gro" % nm)
-        ai = os.path.join(inputs, "%s_AA.itp" % nm)
+        dot = ".v%d" % k if case["seed"] % 2 else ""          # file names may contain further dots
+        cg = os.path.join(inputs, "%s%s_CG.itp" % (nm, dot))
+        ag = os.path.join(inputs, "%s%s_AA.gro" % (nm, dot))
+        ai = os.path.join(inputs, "%s%s_AA.itp" % (nm, dot))
         write_itp(cg, sp["start"])
         write_itp(ai, sp["end"])
         indep.write_gro(ag, "end molecule " + nm, spec_records(sp["end"]), [5.0, 5.0, 5.0])
